@@ -54,6 +54,7 @@ def wildcardize(rng, path):
 
 class C20(Prop):
     id = 'C20'
+    extracted = True      # Local.resolve_filenames regenerated from the current source (harness/extract_m.py, Extracted/EquivC20.lean)
     quick_cases = 1500
     thorough_cases = 20000
     quick_budget_s = 50
